@@ -233,6 +233,7 @@ pub fn arb_start_count(limit: u16, lo_win: u16) -> BoxedStrategy<(u16, u16)> {
         3 => prop::sample::select(vec![limit.saturating_sub(1).max(1), limit, limit.saturating_sub(2).max(1)]),
         3 => 1u16..=limit.max(1),
         1 => prop::sample::select(vec![0u16, limit.saturating_add(1), limit.saturating_add(2), limit.saturating_add(8), 0xFFFF, 0x8000]),
+        1 => Just(0u16),
         1 => any::<u16>(),
     ];
     (count, 0u8..10, any::<u16>())
